@@ -281,7 +281,7 @@ def classify(kind, mode, fault, info):
 
 
 def run_case(case, tier):
-    ctx = explore.explore(make_harness(case, tier), max_paths=5000, time_budget_s=400)
+    ctx = explore.explore(make_harness(case, tier), max_paths=(5000 if tier == 'quick' else 200000), time_budget_s=(400 if tier == 'quick' else 3600))
     return driver.result_from_ctx(ctx)
 
 
